@@ -121,6 +121,14 @@ class YosysBehavioralRTLIRToVVisitorL1( BehavioralRTLIRToVVisitorL1 ):
     return super().visit_SignExt( node )
 
   #-----------------------------------------------------------------------
+  # visit_Truncate
+  #-----------------------------------------------------------------------
+
+  def visit_Truncate( s, node ):
+    node.value._top_expr = 1
+    return super().visit_Truncate( node )
+
+  #-----------------------------------------------------------------------
   # visit_Reduce
   #-----------------------------------------------------------------------
 
